@@ -175,6 +175,8 @@ def judge_c09(case, side, res):
             v["ok"] = False; v["oracle_why"] = "a JSX-free module did not come back unchanged"
         elif res.get("oC09items", "1") != "1":
             v["ok"] = False; v["oracle_why"] = "a JSX-free top-level statement of the input does not appear unchanged (and in order) in the output"
+        elif res.get("oC09stmts", "1") != "1" and not side.get("diags"):
+            v["ok"] = False; v["oracle_why"] = "a JSX-free statement of the input (at some depth) is not a statement of the output any more"
         elif res.get("oC09idem", "1") != "1":
             v["ok"] = False; v["oracle_why"] = "the second pass over the output changed it"
         elif (case.get("stream") == "types" and res.get("jsxfree_in") == "1" and res.get("same_in", "1") != "1"
@@ -321,7 +323,31 @@ def gen_c14(seed, tier, start):
             dflt = {"transformOn": False, "enableObjectSlots": True, "resolveType": False, "mergeProps": True}[k]
             a[k] = not o.get(k, dflt)
         c["options_alt"] = json.dumps(a); c["feat"] = c["feat"] + ["flip:" + k]
-    return out + mods
+    # (3) targeted flips: each class of input the property names as NOT governed by an option, under
+    # every way of choosing the factory (no pragma, option, comment) and with / without hints
+    i = (mods[-1]["id"] + 1) if mods else i
+    pre = gen_cases.PROLOGUE
+    not_slots = ['<Comp>{<b id="b" />}</Comp>', "<Comp>{<>t</>}</Comp>", "<Comp><b/></Comp>", "<Comp>{() => 1}</Comp>",
+                 "<Comp>{{ a: () => 1 }}</Comp>", "<Comp>text</Comp>", "<Comp>{a}{b}</Comp>", '<Comp>{"s"}</Comp>',
+                 "<Comp>{a ? b : val}</Comp>", "<Comp>{foo.bar}</Comp>", "<Comp>{[a]}</Comp>", "<Comp>{<Comp>{a}{b}</Comp>}</Comp>",
+                 "<NS.Item>{<KeepAlive>t</KeepAlive>}</NS.Item>", "<div>{a}</div>", "<div>{fn()}</div>"]
+    not_on = ["<div onClick={fn} id={a} />", "<Comp onUpdate:x={fn}>{a}</Comp>", "<div once={a} online={b} />"]
+    not_merge = ["<div class={a} id=\"i\" onClick={fn} />", "<Comp title={a}>{b}</Comp>"]
+    bases = [({}, ""), ({"pragma": "h"}, ""), ({"optimize": True}, ""), ({"pragma": "custom", "optimize": True}, ""),
+             ({}, "/* @jsx h */\n"), ({"optimize": True}, "// @jsx  hh\n")]
+    for srcs, key, dflt in [(not_slots, "enableObjectSlots", True), (not_on, "transformOn", False), (not_merge, "mergeProps", True),
+                            (not_slots[:4] + not_on[:1], "transformOn", False), (not_slots[:6], "mergeProps", True)]:
+        for s in srcs:
+            for (o, cm) in bases:
+                for first in (True, False):
+                    o1 = dict(o); o1[key] = first
+                    o2 = dict(o); o2[key] = not first
+                    if first == dflt:
+                        o1.pop(key)            # the default, left unwritten
+                    out.append({"id": i, "src": cm + pre + "const v = " + s + ";\n", "syntax": "jsx", "options": json.dumps(o1),
+                                "options_alt": json.dumps(o2), "stream": "module", "feat": ["targeted-flip", "flip:" + key]})
+                    i += 1
+    return mods + out
 
 
 def judge_c14(case, side, res):
@@ -553,6 +579,10 @@ def judge_c17(case, side, res):
                 v["known"] = "empty_object_in_union"
             elif "inherited_index" in tags and pe["type"] != [None]:
                 v["known"] = "indexed_access_inherited_key"
+            elif "unres_index" in tags and "union" in tags and pe["type"] != [None]:
+                # alone, an indexed access the resolver cannot see through gets `type: null`; only next to
+                # other union members is it dropped
+                v["known"] = "unresolved_indexed_access_in_union"
             else:
                 v.pop("known", None)
                 return v
@@ -769,12 +799,39 @@ def judge_c06(case, side, res):
     return v
 
 
+def gen_c03(seed, tier, start):
+    cs = gen_sites(seed, tier, start, 400, 10000)
+    # call children in every kind of surrounding code (parameter defaults, class fields, nested
+    # functions): the temporary that carries the value must be bound where it is used
+    return cs + gen_cases.gen_scope_cases(seed, n_cases(tier, 150, 4000), start + len(cs))
+
+
+def judge_c03(case, side, res):
+    if case.get("stream") != "scope":
+        return make_site_judge("C03")(case, side, res)
+    v = make_judge(None, None, whole=True)(case, side, res)
+    if side.get("status") != "ok" or "output" not in side:
+        v["relevant"] = False
+        return v
+    opts = side.get("options") or {}
+    pragma = [opts["pragma"]] if opts.get("pragma") else []
+    errors, _known = scope_mod.analyse(side["output"], side.get("input"), side.get("unres"), pragma)
+    bad = sorted(set(e for e in errors if e[0] in ("unbound", "used-before-declaration") and e[1].startswith("_slot")))
+    if bad:
+        v["ok"] = False
+        v["oracle_why"] = ("the temporary that carries a call child's value is not bound where the slot expression uses it (the child is never delivered): "
+                           + ", ".join("%s `%s`" % e for e in bad[:4]))
+    return v
+
+
 SITE_TRUST = ["Spec/Site.v + Spec/SiteCheck.v are this check's independent reading of what a JSX element denotes (type, contributions to the props in order, directives, children / slots); it is compared with the REAL output of probe modules `const __site = <element>`",
               "that the compared shapes evaluate as intended under JavaScript and Vue (object literal order, mergeProps, withDirectives, slot invocation) is argued in DESIGN.md, not proved"]
 
 PROPS = {
     "C01": {"gen": gen_sites, "judge": make_site_judge("C01"), "trusted": SITE_TRUST, "assumptions": []},
-    "C03": {"gen": gen_sites, "judge": make_site_judge("C03"), "trusted": SITE_TRUST, "assumptions": []},
+    "C03": {"gen": gen_c03, "judge": judge_c03,
+            "trusted": SITE_TRUST + ["a call child is delivered through a temporary (`_slot`): on the scope stream the binding analysis of tools/scope.py decides that the temporary is bound where the slot expression uses it"],
+            "assumptions": []},
     "C04": {"gen": gen_sites, "judge": make_site_judge("C04"), "trusted": SITE_TRUST, "assumptions": []},
     "C05": {"gen": gen_sites, "judge": make_site_judge("C05"), "trusted": SITE_TRUST, "assumptions": []},
     "C11": {"gen": gen_sites, "judge": make_site_judge("C11"), "trusted": SITE_TRUST, "assumptions": []},
